@@ -74,9 +74,9 @@ impl P {
             P::Level | P::Kind => &[
                 "try_from_str", "from_str", "value_cast", "value_cast_owned", "value_cast_shared", "value_cast_display",
             ],
-            P::Path => &[
-                "is_valid_path", "new_ref", "value_cast", "value_cast_owned", "value_cast_shared", "value_cast_display",
-            ],
+            // a `Path<'v>` borrows its text from the value, so a Display-backed value cannot be cast to one (None by
+            // construction, not a parser verdict): no `value_cast_display` entry for paths
+            P::Path => &["is_valid_path", "new_ref", "value_cast", "value_cast_owned", "value_cast_shared"],
         }
     }
 
@@ -107,7 +107,6 @@ impl P {
             (P::Kind, 3..=5) => via::<Kind>(e - 3, s).map(|v| v.to_string()),
             (P::Path, 3) => Value::from(s).to_owned().by_ref().cast::<Path>().map(|v| v.to_string()),
             (P::Path, 4) => Value::from(s).to_shared().by_ref().cast::<Path>().map(|v| v.to_string()),
-            (P::Path, 5) => Value::from_display(&format_args!("{}", s)).cast::<Path>().map(|v| v.to_string()),
             (P::Ts, 0) => Timestamp::try_from_str(s).ok().map(ts),
             (P::Ts, 1) => Timestamp::from_str(s).ok().map(ts),
             (P::Ts, 2) => Timestamp::parse(s).ok().map(ts),
